@@ -23,6 +23,7 @@ class RM:
     payload: tuple = ("raw",)       # ("raw",) or tuple of type texts
     raw_marked: bool = True         # whether the raw Binary payload carries #[sv::payload(raw)]
     pnames: tuple = None            # names of the typed payload parameters (default p0, p1, ...)
+    dname: str = None               # name of the leading data / error / result parameter (default data / error / result)
     data_flags: str = None          # literal flag list for sv::data (same mode, other spelling / order)
 
     def outcome(self):
@@ -50,14 +51,17 @@ def to_method(rm, label="Ct"):
     o = rm.outcome()
     if o == "success":
         if rm.data != "none":
-            args.append(Arg("data", data_param_ty(rm), (data_attr(rm),)))
-            echo.append('("data", vsupport::jdbg(&data))' if "instantiate" in rm.data else '("data", vsupport::js(&data))')
+            dn = rm.dname or "data"
+            args.append(Arg(dn, data_param_ty(rm), (data_attr(rm),)))
+            echo.append(('("data", vsupport::jdbg(&%s))' if "instantiate" in rm.data else '("data", vsupport::js(&%s))') % dn)
     elif o == "error":
-        args.append(Arg("error", "String"))
-        echo.append('("error", vsupport::js(&error))')
+        dn = rm.dname or "error"
+        args.append(Arg(dn, "String"))
+        echo.append('("error", vsupport::js(&%s))' % dn)
     else:
-        args.append(Arg("result", "SubMsgResult"))
-        echo.append('("result", vsupport::js(&result))')
+        dn = rm.dname or "result"
+        args.append(Arg(dn, "SubMsgResult"))
+        echo.append('("result", vsupport::js(&%s))' % dn)
     if rm.payload == ("raw",):
         args.append(Arg("payload", "Binary", ("#[sv::payload(raw)]",) if rm.raw_marked else ()))
         echo.append('("payload", vsupport::js(&payload))')
@@ -259,6 +263,11 @@ def quick_programs():
             rms.append(RM(fn="e_" + n, on="error", payload=("u64", "String"), pnames=(n, "other")))
         if n != "result":
             rms.append(RM(fn="a_" + n, on="always", payload=("u64",), pnames=(n,)))
+        # the same payload name next to a data parameter (which then carries another name)
+        rms.append(RM(fn="sd_" + n, on="success", payload=("u64", "String"), pnames=(n, "tail"), data="raw,opt", dname="lead_arg"))
+        # leading parameters named like the locals, too
+        if n not in ("payload",):
+            rms.append(RM(fn="le_" + n, on="error", payload=("u64",), pnames=("tail",), dname=n))
     out.append(("rpnames", rms, {"payload", "pnames"}))
     # declaration orders of a success/error pair (error first is where a merge shortcut shows)
     out.append(("rorder_se", [RM(fn="on_s", handlers=("x",), on="success", data="raw,opt"), RM(fn="on_e", handlers=("x",), on="error")], {"order"}))
